@@ -254,8 +254,19 @@ class CallMixin:
         if sp is not None:
             return sp
         fv = self.ev(f, st)
-        if any(isinstance(a, ast.Starred) for a in e.args) or any(k.arg is None for k in e.keywords):
+        if any(k.arg is None for k in e.keywords):
             raise Unsupported(f"star-args call {self.src(e)}")
+        args = []
+        for a in e.args:
+            if isinstance(a, ast.Starred):
+                tv = self.ev(a.value, st)
+                if not isinstance(tv.t, TTuple):
+                    raise Unsupported(f"star-args call with a non-tuple {self.src(e)}")
+                args.extend(tv.z)        # f(*t) with a tuple of known arity
+            else:
+                args.append(self.ev(a, st))
+        kwargs = {k.arg: self.ev(k.value, st) for k in e.keywords}
+        return self.apply(fv, args, kwargs, st, e)
         args = [self.ev(a, st) for a in e.args]
         kwargs = {k.arg: self.ev(k.value, st) for k in e.keywords}
         return self.apply(fv, args, kwargs, st, e)
@@ -504,6 +515,39 @@ class CallMixin:
             pre = st.copy()
             pre.frames = [dict(env)]
             cname = c.qual
+            if self.spec_mode:
+                # a contract function used inside a specification context (the predicate of filter(), a quantified
+                # clause): nothing is owed and nothing may happen; the callee's postcondition is known where its
+                # precondition holds, and says nothing elsewhere
+                if self.contract_modifies(c, ci):
+                    raise Unsupported(f"{cname} modifies state: not usable in a specification context")
+                reqs = []
+                for r in self.contract_requires(c, ci):
+                    tmp = st.copy()
+                    tmp.frames = [dict(env)]
+                    reqs.append(self.ev_spec(r, tmp))
+                self.used_contracts.add(cname)
+                # the value must be a *term over the arguments* (they may contain bound variables): take it from a
+                # defining clause `result == expr`; outside the precondition the value is an unconstrained function of them
+                defining = None
+                for r in self.contract_ensures(c, ci):
+                    tr = ast.parse(r.strip(), mode="eval").body
+                    if (isinstance(tr, ast.Compare) and len(tr.ops) == 1 and isinstance(tr.ops[0], ast.Eq)
+                            and isinstance(tr.left, ast.Name) and tr.left.id == "result"):
+                        defining = tr.comparators[0]
+                        break
+                if defining is None:
+                    raise Unsupported(f"{cname} in a specification context needs a defining clause `result == expr`")
+                tmp = st.copy()
+                tmp.frames = [dict(env)]
+                val = self.ev(defining, tmp)
+                req = z3.And(*reqs) if reqs else z3.BoolVal(True)
+                if z3.is_true(z3.simplify(req)):
+                    return val
+                argz = [box(env[p]) for p in params if not isinstance(env[p].t, (TTuple, TPy))]
+                other = prelude().func("outside_pre!" + cname.replace(":", "_").replace(".", "_"),
+                                       *([a.sort() for a in argz] + [sort_of(val.t)]))
+                return ite(req, val, unbox(other(*argz), val.t))
             # requires: obligations of the *caller*
             for k, r in enumerate(self.contract_requires(c, ci)):
                 tmp = st.copy()
